@@ -33,6 +33,10 @@ VALUES: list[Any] = [
     None, True, False, 0, 1, -7, 2 ** 53 + 1, 10 ** 30, 1.5, -2.25e-7, 1e300, "", "x", "é☃\u0000", "a\nb\"c\\",
     [], [1, "x", None, True], {}, {"k": 1}, {"k": [1, {"z": None}], "": ""}, [[1], [{"a": "b"}]],
     {"value": {"qualified_name": "q"}}, {"1": 1, "é": [1.5]},
+    # plain JSON data that LOOKS like the serializer's own type markers (a saved snapshot carried as a value): it is data
+    {"__is_pydantic": True, "qualified_name": "vmc.events18.Inner", "value": {"x": 1, "tags": []}},
+    {"saved": {"__is_pydantic": True, "qualified_name": "workflows.events.StopEvent", "value": {"_data": {"result": 1}}}},
+    [{"__is_component": True, "qualified_name": "no.such.module.Cls", "value": {}}],
 ]
 VALUES_THOROUGH_EXTRA: list[Any] = [
     {"a": {"b": {"c": [1, [2, [3]]]}}}, [[[[]]]], 0.1 + 0.2, -0.0, 2 ** 64, -(2 ** 63) - 1, "퟿￿", " ", "null", "1",
